@@ -220,4 +220,35 @@ class TstGen:
         return ops
 
 
-GEN = TstGen()
+def sparsify(rng, hist):
+    """the same history as an obs=sparse session: `observe` every 5-15 operations and before destroy"""
+    out = [hist[0] + " obs=sparse"]
+    gap = rng.randint(5, 15)
+    for op in hist[1:]:
+        if op.startswith("destroy"):
+            out.append("observe")
+        elif gap <= 0:
+            out.append("observe")
+            gap = rng.randint(5, 15)
+        out.append(op)
+        gap -= 1
+    return out
+
+
+class TstGenSparse(TstGen):
+    """about a third of the histories of every focus run in sparse observation mode"""
+
+    def small_scope(self, tier, focus=None):
+        rng = random.Random(20260930)
+        return [sparsify(rng, h) if i % 3 == 1 else h for i, h in enumerate(TstGen.small_scope(self, tier, focus))]
+
+    def random(self, rng, n, tier, focus=None):
+        return [sparsify(rng, h) if rng.random() < 0.34 else h for h in TstGen.random(self, rng, n, tier, focus)]
+
+    def fault_seeds(self, tier):
+        rng = random.Random(7)
+        seeds = TstGen.fault_seeds(self, tier)
+        return seeds + [sparsify(rng, h) for h in seeds]
+
+
+GEN = TstGenSparse()
